@@ -115,7 +115,12 @@ impl AffineRepr for AffinePoint {
     }
 
     fn from_random_bytes(bytes: &[u8]) -> Option<Self> {
-        EdwardsAffine::from_random_bytes(bytes).map(|inner| AffinePoint { inner })
+        // The sampled curve point is an arbitrary point of the cofactor-4 curve; doubling it
+        // lands in the image of the decaf377 group (the even points), so that the result is a
+        // valid representative of a group element.
+        EdwardsAffine::from_random_bytes(bytes).map(|inner| AffinePoint {
+            inner: (inner + inner).into(),
+        })
     }
 
     fn mul_bigint(&self, other: impl AsRef<[u64]>) -> Self::Group {
